@@ -1,5 +1,6 @@
 import DeltaModel.Pager
 import Proofs.Pager
+import Proofs.PagerTail
 /-!
 C18 — exit status and pager protocol: all output delivered, quits are silent.
 
@@ -454,5 +455,100 @@ theorem all_writes_before_close (pager : Bool) (writes : Nat) :
   cases pager <;>
     simp [run, shapeOk_true, body, effectiveFault, stdinTail_zero, hasPager, usesOutputType,
       renderEvents, dropWaits]
+
+/-! ### After the last write: the destructor of `output_type` and the tail of `main` (T21)
+
+`PagerTail.runFull s st` is `run s` with its suffix — "`Drop` waits for the pager, then
+`process::exit`" — replaced by an interpretation of the *statements* of `impl Drop for OutputType::drop`
+and of `main` after `run_app(..)` (`Generated.PagerTail.dropStmts`, `mainTail`: one row per effect,
+with its guards), for an arbitrary way `st` the pager ended: exit code 0, exit code ≠ 0, killed by
+a signal, `wait` failed. A write to stderr / stdout, an exit, or a statement that is not understood
+counts as soon as its guards *may* hold for `st`; the wait counts only where it *must* happen. -/
+
+open PagerTail in
+/-- The interpreted suffix is the abstract one, for every scenario (every mode, fault, number of
+    writes, child status) and every pager status: the destructor does nothing but wait for the pager
+    (when there is one), `main` does nothing but `process::exit(exit_code)`. All theorems above about
+    `run` therefore hold for `runFull`. No hypothesis. -/
+theorem tail_statements_are_wait_then_exit (s : Scenario) (st : PagerStatus) :
+    runFull s st = run s := runFull_eq_run s st
+
+open PagerTail in
+/-- **Nothing is written after the reader is gone.** In every rendering mode (stdin, `delta a b`,
+    `delta git/rg …`, the listing subcommands), with or without a pager, for every number of writes
+    and every position of the write that fails with EPIPE, and for every way the pager ends (any exit
+    code, any signal, `wait` failing): after the failed write delta only reaps the wrapped command (if
+    any), closes and waits for the pager (if any) and exits with status 0 — no message, no further
+    write, no statement the model does not understand.
+    Hypotheses: `hm` — other modes have no rendering write (their exits: `setup_errors_status_two`,
+    `oneshot_broken_pipe_partial`); `h` — the faulty write is one delta actually makes (otherwise
+    nothing fails: `normal_completion_quiet`). -/
+theorem nothing_written_after_reader_gone (m : Mode) (hm : rendering m) (pager : Bool)
+    (writes pos : Nat) (h : pos < writes) (st : PagerStatus) :
+    ∃ pre, runFull ⟨m, pager, writes, some ⟨pos, .brokenPipe⟩⟩ st =
+      pre ++ [Event.writeFail .brokenPipe]
+        ++ quietTail (subMode m) (hasPager ⟨m, pager, writes, some ⟨pos, .brokenPipe⟩⟩) := by
+  rw [runFull_eq_run]
+  cases m with
+  | stdin =>
+    rw [run_broken_pipe_stdin pager writes pos h]
+    exact ⟨(if pager then [Event.spawnPager] else []) ++ List.replicate pos Event.writeOk, by cases pager <;> rfl⟩
+  | sub k ok cst n =>
+    simp [rendering] at hm; subst hm
+    rw [run_broken_pipe_sub k cst n pager writes pos h]
+    exact ⟨(if pager then [Event.spawnPager] else []) ++ [Event.spawnSub] ++ List.replicate pos Event.writeOk,
+      by cases pager <;> rfl⟩
+  | early =>
+    rw [run_broken_pipe_early pager writes pos h]
+    exact ⟨List.replicate pos Event.writeOk, by cases pager <;> rfl⟩
+  | stdinTty => simp [rendering] at hm
+  | diffArgsError => simp [rendering] at hm
+  | oneshot => simp [rendering] at hm
+  | setupAbort i => simp [rendering] at hm
+  | renderAbort i => simp [rendering] at hm
+
+open PagerTail in
+example : rendering (.sub .gitDiff true (some 1) 0) ∧ (7 : Nat) < 9 ∧
+    hasPager ⟨.sub .gitDiff true (some 1) 0, true, 9, some ⟨7, .brokenPipe⟩⟩ = true ∧
+    quietTail true true = [Event.waitSub, Event.closePager, Event.waitPager, Event.exit 0] := by
+  simp [rendering, hasPager, usesOutputType, quietTail]
+
+open PagerTail in
+/-- … the quiet tail contains neither a message nor a write nor an unknown statement, and ends in
+    `exit 0` after the wait for the pager. -/
+theorem quiet_tail_is_quiet (sub pager : Bool) :
+    Event.message ∉ quietTail sub pager ∧ Event.writeOk ∉ quietTail sub pager ∧
+    Event.unknown ∉ quietTail sub pager ∧ Event.writeFail .brokenPipe ∉ quietTail sub pager ∧
+    Event.writeFail .other ∉ quietTail sub pager ∧
+    (quietTail sub pager).getLast? = some (Event.exit 0) ∧
+    (pager = true → [Event.closePager, Event.waitPager, Event.exit 0] <:+ quietTail sub pager) := by
+  cases sub <;> cases pager <;> decide
+
+open PagerTail in
+/-- Normal completion (stdin mode, nothing fails), for every pager status: after the last write
+    delta closes and waits for the pager and exits 0; nothing else. -/
+theorem normal_completion_quiet (pager : Bool) (writes : Nat) (st : PagerStatus) :
+    runFull ⟨.stdin, pager, writes, none⟩ st =
+      (if pager then [Event.spawnPager] else []) ++ List.replicate writes Event.writeOk
+      ++ quietTail false pager := by
+  rw [runFull_eq_run, all_writes_before_close]
+  cases pager <;> simp [quietTail]
+
+open PagerTail in
+example : runFull ⟨.stdin, true, 2, none⟩ (.exited 3) =
+    [Event.spawnPager, Event.writeOk, Event.writeOk, Event.closePager, Event.waitPager, Event.exit 0] := by
+  rw [normal_completion_quiet]; rfl
+
+/-! What the interpretation does with a destructor that reports the pager's status (the shape of a
+    "usability" change to `Drop`): a message for exit codes ≠ 0, none for 0 or a signal — so
+    `tail_statements_are_wait_then_exit` cannot be proved for such a `dropStmts`. -/
+open PagerTail in
+example :
+    let rows : List Row := [(["is-pager"], "wait-child", ""), (["is-pager", "status:exit-nonzero"], "stderr", "")]
+    interp true (.exited 3) 0 rows = [Event.closePager, Event.waitPager, Event.message] ∧
+    interp true (.exited 0) 0 rows = [Event.closePager, Event.waitPager] ∧
+    interp true (.signaled 13) 0 rows = [Event.closePager, Event.waitPager] ∧
+    interp false (.exited 3) 0 rows = [] := by decide
+
 
 end C18
